@@ -38,10 +38,11 @@ Sig(cov, tag) == << <<N(<<>>)>>, <<cov, 8, 2, 300, 1893456000, 1577836800, tag, 
 RdOf(ty) == CASE ty = "DNSKEY" -> RdDNSKEY [] ty = "KEY" -> RdKEY
               [] ty = "RRSIG/A" -> {Sig(1, 11)} [] ty = "RRSIG/DNSKEY" -> {Sig(48, 12)}
               [] ty = "RRSIG/CNAME" -> {Sig(5, 13)} [] ty = "RRSIG/NSEC" -> {Sig(47, 14)}
+              [] ty = "SIG/A" -> {Sig(1, 21)} [] ty = "SIG/MX" -> {Sig(15, 22)}   \* legacy SIG (type 24): same rdata, one rdataset per covered type
               [] ty = "SOA" -> RdSOA [] ty = "NS" -> RdNS [] ty = "A" -> RdA [] ty = "CNAME" -> RdCNAME
               [] ty = "TXT" -> RdTXT [] ty = "MX" -> RdMX [] ty = "NSEC" -> RdNSEC [] ty = "TYPE65280" -> RdUNK
 UTypes == {"SOA", "NS", "A", "CNAME", "TXT", "MX", "NSEC", "TYPE65280",
-           "DNSKEY", "KEY", "RRSIG/A", "RRSIG/DNSKEY", "RRSIG/CNAME", "RRSIG/NSEC"}
+           "DNSKEY", "KEY", "RRSIG/A", "RRSIG/DNSKEY", "RRSIG/CNAME", "RRSIG/NSEC", "SIG/A", "SIG/MX"}
 
 ZoneOf(recs) == ZoneOfRecs(recs)
 
@@ -90,7 +91,10 @@ Z7 == ZoneOf({<< <<"a">>, "CNAME", 300, CN1 >>, << <<"a">>, "RRSIG/CNAME", 300, 
               << <<"a">>, "NSEC", 300, NSEC1 >>, << <<"a">>, "RRSIG/NSEC", 300, Sig(47, 14) >>})
 Z8 == ZoneOf({<< <<>>, "DNSKEY", 600, DK1 >>, << <<>>, "DNSKEY", 600, DK2 >>, << <<>>, "RRSIG/DNSKEY", 600, Sig(48, 12) >>,
               << <<"b", "a">>, "A", 5, A1 >>, << <<"b", "a">>, "RRSIG/A", 5, Sig(1, 11) >>})
-Curated == {Z1, Z2, Z3, Z4, Z5, Z6, Z7, Z8, ZG, ZG2}
+\* two legacy SIG rdatasets (different covered types, different TTLs) at one owner
+Z9 == ZoneOf({<< <<>>, "NS", 300, NS1 >>, << <<"a">>, "A", 300, A1 >>, << <<"a">>, "SIG/A", 300, Sig(1, 21) >>,
+              << <<"a">>, "SIG/MX", 600, Sig(15, 22) >>, << <<"a">>, "MX", 600, MX1 >>})
+Curated == {Z1, Z2, Z3, Z4, Z5, Z6, Z7, Z8, Z9, ZG, ZG2}
 
 AllRecs == UNION {{<<o, ty, t, rd>> : o \in (IF ty = "SOA" THEN {<<>>} ELSE Owners), t \in UTTLs, rd \in RdOf(ty)} : ty \in UTypes}
 Singles == {ZoneOf({r}) : r \in AllRecs}
@@ -128,7 +132,8 @@ McForms == [cls |-> {"none", "IN"}, ord |-> {"tc"}, ttl |-> {"t"}, tg |-> {FALSE
             lay |-> {"single"}, relorigin |-> TRUE]
 PlainForms == [cls |-> {"IN"}, ord |-> {"tc"}, ttl |-> {"t"}, tg |-> {FALSE}, gen |-> {FALSE},
                lay |-> {"single"}, relorigin |-> FALSE]
-UOrigins == {UZO, <<"a", "example">>, <<"other">>}
+UOrigins == {UZO, <<"a", "example">>, <<"b", "a", "example">>, <<"other">>}
+UNoNoise == {}
 Lit(x) == <<"lit", x>>
 Dot == <<"dot">>
 Mod(off, w, b) == <<"mod", off, w, b>>
